@@ -211,6 +211,9 @@ class Expander(object):
                 return e
             it, enum = strip_order_keeping(st.iter)
             itx = self._x(copy.deepcopy(it), d, depth + 1, busy)      # the iterable sees the binding from before the loop
+            itx2, enum2 = strip_order_keeping(itx)                     # `xs = list(gen()); for x in xs`: the order keeping wrapper came in with the local
+            if not enum2:
+                itx = itx2
             t = st.target
             if isinstance(t, ast.Name) and t.id == name:
                 return _each(itx)
